@@ -484,12 +484,67 @@ func (ld *Loaded) runFootprint() []string {
 	return probs
 }
 
+// runHaltReturns: on the path on which the halted indication is found set
+// after a Step, Run reaches a return without going round the loop again
+// ("returns in the iteration that executes HALT"; contracts prove partial
+// correctness only, this is the one liveness fact the statements need).
+func (ld *Loaded) runHaltReturns() []string {
+	fn := ld.funcByKey("z80.(*CPU).Run")
+	if fn == nil {
+		return []string{"no function (*CPU).Run"}
+	}
+	fi := analyze(fn)
+	var probs []string
+	found := false
+	for _, blk := range fn.Blocks {
+		ifi, ok := blk.Instrs[len(blk.Instrs)-1].(*ssa.If)
+		if !ok {
+			continue
+		}
+		ld0, ok := ifi.Cond.(*ssa.UnOp)
+		if !ok || ld0.Op.String() != "*" {
+			continue
+		}
+		fa, ok := ld0.X.(*ssa.FieldAddr)
+		if !ok {
+			continue
+		}
+		st := fa.X.Type().Underlying().(*types.Pointer).Elem().Underlying().(*types.Struct)
+		if st.Field(fa.Field).Name() != "HALT" {
+			continue
+		}
+		found = true
+		// from the true successor every path must return before any loop header
+		seen := map[*ssa.BasicBlock]bool{}
+		var walk func(b *ssa.BasicBlock)
+		walk = func(b *ssa.BasicBlock) {
+			if seen[b] {
+				return
+			}
+			seen[b] = true
+			if fi.back[b] != nil {
+				probs = append(probs, fmt.Sprintf("with the halted indication set after a Step, Run can go round its loop again (block %d) instead of returning", b.Index))
+				return
+			}
+			for _, s := range b.Succs {
+				walk(s)
+			}
+		}
+		walk(blk.Succs[0])
+	}
+	if !found {
+		probs = append(probs, "Run does not test the halted indication after Step")
+	}
+	return probs
+}
+
 func init() {
 	checks["C08"] = func(ld *Loaded, r *Run) {
 		r.verifyHelpers(ld, func(c *Contract) bool { return !ownsProp(c, "C08") })
 		r.establishStepFrame(ld)
 		r.verifyHelpers(ld, propFilter("C08"))
 		r.structural(ld, "Run/footprint", ld.runFootprint(), "Run itself writes only cpu.HALT=false, reads only BreakPoints, PC, HALT, and calls only Step")
+		r.structural(ld, "Run/halt/returns", ld.runHaltReturns(), "")
 		r.checkLemmas(ld, "C08")
 		r.Assumptions["C08: the watcher goroutine touches only its own cells (checked: Run/shared/protocol in C13); loads from those cells return arbitrary values in Run's proof"] = true
 		r.Assumptions["C08: 'performs the same transitions as repeated Step' = the loop body's only effect on the CPU is one call of Step (frame of the loop + footprint); the induction over iterations is the loop rule"] = true
